@@ -539,3 +539,74 @@ def replay_staleness_probe():
         return bool(bad), "; ".join(bad[:2]) or "probe: staleness checks never open a source outside the allowed root (sibling-prefix directories included)"
     finally:
         shutil.rmtree(d, ignore_errors=True)
+
+
+# ---- the CLI as a writer: `octave write FILE`, `normalize -o`, `seal -o`, `hydrate -o` ---------------------------------------
+CLI_SRC = '===DOC===\nMETA:\n  TYPE::"SPEC"\n  VERSION::"1.0.0"\n\n§CONTEXT::IMPORT["@test/vocab"]\n\n§1::CONTENT\n  USES_A::"Uses TERM_A here"\n\n===END===\n'
+CLI_VOCAB = '===VOCAB===\nMETA:\n  TYPE::"CAPSULE"\n  VERSION::"1.0.0"\n\n§1::TERMS\n  TERM_A::"Definition of term A"\n  TERM_B::"Definition of term B"\n\n===END===\n'
+CLI_BAD = ("../outside/secret.oct.md", "dirlink/x.oct.md", "dirlink/new.oct.md", "filelink.oct.md", "dangling.oct.md", "danglingdir/x.oct.md", "inlink/ok.oct.md", "x.txt", "sub/../ok.oct.md", "sub/../new.oct.md", "sub/dirlink/x.oct.md", "looplink", "noext")
+
+
+def cli_commands(sb: str, target: str) -> list[tuple[str, list[str]]]:
+    src = os.path.join(sb, "clisrc.oct.md")
+    return [
+        ("write FILE --content", ["write", target, "--content", DOC]),
+        ("normalize -o", ["normalize", src, "-o", target]),
+        ("seal -o", ["seal", src, "-o", target]),
+        ("hydrate -o", ["hydrate", src, "--mapping", f"@test/vocab={os.path.join(sb, 'clivocab.oct.md')}", "-o", target]),
+    ]
+
+
+def _cli_setup(sb: str) -> None:
+    for n, t in (("clisrc.oct.md", CLI_SRC), ("clivocab.oct.md", CLI_VOCAB)):
+        with open(os.path.join(sb, n), "w", encoding="utf-8") as f:
+            f.write(t)
+
+
+def replay_cli_probe(which: str = ""):
+    """every CLI command that writes a file, given an output path with '..', a symlink in any component or a
+    disallowed extension (absolute and relative to the sandbox): must exit non-zero and leave the whole tree as it was;
+    an ordinary path is accepted (the refusals are not vacuous)."""
+
+    def run(root):
+        from click.testing import CliRunner
+
+        from octave_mcp.cli.main import cli
+
+        sb = os.path.join(root, "sandbox")
+        _cli_setup(sb)
+        os.chdir(sb)
+        runner = CliRunner()
+        bad = []
+        n = 0
+        for rel in CLI_BAD:
+            for target in (os.path.join(sb, rel), rel):
+                for name, argv in cli_commands(sb, target):
+                    if which and which != name:
+                        continue
+                    before = snapshot(root)
+                    res = runner.invoke(cli, argv)
+                    after = snapshot(root)
+                    n += 1
+                    changed = sorted(k for k in set(before) | set(after) if before.get(k) != after.get(k))
+                    if res.exit_code == 0 or changed:
+                        bad.append(f"`octave {name}` with output path {target[len(sb) + 1:] if target.startswith(sb) else target!r} ({'absolute' if target.startswith(sb) else 'relative'}): exit code {res.exit_code}, changed entries {changed[:3]}")
+                    if changed:
+                        return True, "; ".join(bad[:3])  # the tree is no longer pristine
+        for name, argv in cli_commands(sb, os.path.join(sb, "sub", "cliout.oct.md")):
+            if which and which != name:
+                continue
+            res = runner.invoke(cli, argv)
+            if res.exit_code != 0:
+                bad.append(f"`octave {name}` refuses an ordinary output path: {res.output.strip()[:120]!r}")
+        return bool(bad), "; ".join(bad[:3]) or f"{n} CLI calls with bad output paths refused with the tree unchanged; ordinary paths accepted"
+
+    return _with_tree(run)
+
+
+def ob_cli(ctx: Ctx) -> Outcome:
+    failed, text = replay_cli_probe()
+    extra = dict(bound=f"{len(CLI_BAD)} bad output paths ('..', symlinked directory / file / dangling / loop, inside and outside targets, disallowed extensions) x absolute and relative spelling x 4 CLI commands that write (write FILE, normalize -o, seal -o, hydrate -o); observed: exit code and a snapshot of the whole tree before/after; plus one ordinary path per command", evaluations=len(CLI_BAD) * 2 * 4 + 4, distinct_nontrivial=len(CLI_BAD) * 2 * 4, rule="a case is one CLI invocation; non-trivial: the property demands refusal")
+    if failed:
+        return Outcome.refuted("real CLI on a generated tree", [Witness(what=text[:700], key="cli|" + text.split("`")[1] if "`" in text else "cli", input=text[:200], replay={"runner": "props.C19_b:replay_cli_probe", "args": {}}, confirmed=True)], **extra)
+    return Outcome.ok("real CLI on a generated tree", **extra)
